@@ -34,6 +34,9 @@ func init() {
 }
 
 func runC15(c *Ctx) {
+	if c15CoverageHook != nil {
+		defer c15CoverageHook(c)
+	}
 	c15R1(c)
 	c15R2(c)
 	c15R3(c)
@@ -2555,6 +2558,10 @@ func c15CheckLister(c *Ctx, R4 string, f *ssa.Function) {
 }
 
 var c15Mutants = []Mutant{
+	{Name: "referrers-page-ignores-configured-limit", File: "registry/remote/repository.go",
+		Old:    "\tlr := limitReader(resp.Body, r.MaxMetadataBytes)\n\tif err := json.NewDecoder(lr).Decode(&index); err != nil {",
+		New:    "\tlr := limitReader(resp.Body, 0)\n\tif err := json.NewDecoder(lr).Decode(&index); err != nil {",
+		Expect: "C15.R1.limit-is-the-option"},
 	// applies only once the truncation defect (D8) is repaired the way notes/triage/d8-candidate-fix.diff does; skipped otherwise
 	{Name: "d8-size-guard-removed", File: "registry/remote/repository.go",
 		Old: "\t\t\tif err := limitSize(ocispec.Descriptor{Size: resp.ContentLength}, s.repo.MaxMetadataBytes); err != nil {\n\t\t\t\treturn ocispec.Descriptor{}, fmt.Errorf(\"%s %q: %w\", resp.Request.Method, resp.Request.URL, err)\n\t\t\t}\n",
